@@ -287,7 +287,7 @@ def check_loss(case):
 # case generators
 
 EOS_MODES = [(None, False), (0, False), (0, True)]  # (eos, include_eos); eos = 0 is a member of the alphabet -> ragged batches with garbage after it
-COSTS_QUICK = [(1.0, 1.0, 1.0), (1.0, 2.0, 3.0), (2.0, 1.0, 1.0), (1.0, 1.0, 2.5)]
+COSTS_QUICK = [(1.0, 1.0, 1.0), (1.0, 2.0, 3.0), (2.0, 1.0, 1.0), (1.0, 1.0, 2.5), (1.0, 0.0, 1.0)]
 COSTS_MORE = [(0.5, 1.0, 1.0), (1.0, 3.0, 1.0), (2.0, 2.0, 1.0), (3.0, 3.0, 4.0), (2.0, 2.0, 2.0), (1.0, 0.25, 0.5)]
 GRID = [0.25, 0.5, 1.0, 1.5, 2.0, 3.0, 4.0]
 NRAND = 8000  # seeded random batches per clause in the thorough tier
